@@ -482,7 +482,7 @@ func checkEnvWalk(p *Prog, l *Ledger, which string, fn *ssa.Function) {
 		return
 	}
 	m := NewInterpModel(p, construct)
-	m.Unroll = 3 // a helper that walks the chain by calling itself is unrolled like the loop it is
+	m.Unroll = 3       // a helper that walks the chain by calling itself is unrolled like the loop it is
 	m.StateCap = 30000 // the reference walk needs a few hundred states
 	params := []AV{Sym("e"), Sym("name")}
 	key := "name"
